@@ -192,6 +192,7 @@ def run(an: Analysis, rep):
     rep.run(r025, an, rep)
     rep.run(r026, an, rep)
     rep.run(r027, an, rep)
+    rep.run(r028, an, rep)
     from .common import local_memo_rule
     rep.run(local_memo_rule, an, rep, "R02.M", ["from_code"])
     from .common import SharedRules
@@ -203,6 +204,11 @@ def run(an: Analysis, rep):
     rep.run(c01.r015_order, an, sho)
     rep.run(c01.r015_every_line, an, sho)
     rep.run(c10.format_rules, an, SharedRules(rep, "R02.L", "line-table format constants (shared with C10's R10.*): the line shown for an instruction is read through them"))
+    from .common import rejection_paths_rule
+    rep.run(rejection_paths_rule, an, rep, "R02.R", ["from_code"], DECODER_REJECTIONS, "from_code")
+    from . import c08
+    rep.run(c08.r084, an, SharedRules(rep, "R02.K", "the decoder tells its constants apart by this key while it numbers them (shared with C08's R08.4): a constant type without a key makes from_code raise, "
+                                      "a coarser key gives two instructions the same Constant although CPython loads different ones ('each operand is the same ... constant (type-exact)')"), rule="R02.K")
     rep.stats.update(an.stats(interps))
     rep.assumptions += ["compiler output never jumps into the middle of an EXTENDED_ARG sequence (CPython's assembler targets the first unit)"]
 
@@ -534,6 +540,25 @@ def r024(an, rep, V, f, arms, env):
             f"cell variables can still be added after the shift ({norm_src(later_adds[0]) if later_adds else 'shift not at top level'}): free-variable operands are then too small", config=cfg)
 
 
+# Places where the decoder stops with an exception, confirmed by reading: (function, exception) -> (how many, why / which rule decides reachability).
+DECODER_REJECTIONS = {
+    ("code_data._blocks::bytes_to_blocks", "NotImplementedError"):
+        (1, "a later code unit of an instruction has its own line-table entry: reachable, decided (and listed as a known finding) by C01's R01.A"),
+    ("code_data._code_data::to_code_data", "NotImplementedError"):
+        (1, "co_nlocals != len(co_varnames): the compiler sets co_nlocals from the length of the varnames tuple"),
+    ("code_data._code_data::to_code_data", "AssertionError"):
+        (3, "NOFREE disagrees with empty free/cell tables (the compiler computes the flag from them); arguments on non-function code and two function kinds at once: decided by C04's R04.6 / R04.7"),
+    ("code_data._code_data::to_code_data", "ValueError"):
+        (2, "flags left over after every known one was consumed, or only one of OPTIMIZED/NEWLOCALS: reachable through compile(flags=...), decided (known findings) by C01's R01.4 / C04's R04.F"),
+    ("code_data._constants::inner_constant_key", "NotImplementedError"):
+        (1, "fall-through of the dispatch over constant types: R02.K (C08's R08.4) shows every type the compiler emits has an arm"),
+    ("code_data._flags_data::to_flags_data", "ValueError"):
+        (2, "bits of co_flags without a name: C11's R11.1/R11.2 compare the flag table with CPython's for each version"),
+    ("code_data._line_mapping::LineMapping.pop_additional_line", "NotImplementedError"):
+        (2, "line-table entries left at offsets that are not an instruction boundary: decided by C01's R01.A (known finding there)"),
+}
+
+
 def find_parser(an: Analysis) -> FunctionInfo:
     """The generator that folds EXTENDED_ARG: yields 5-tuples and mentions EXTENDED_ARG."""
     for f in an.closure("from_code"):
@@ -682,6 +707,82 @@ def r026(an, rep):
                 f"`{a}` is set back to {inits[a]!r} after the yield and carried through EXTENDED_ARG prefixes" if ok and not ext_reset else
                 (f"`{a}` is reset on the EXTENDED_ARG path: prefixes are lost" if ext_reset else
                  f"`{a}` is not reset to {inits[a]!r} after an instruction is yielded: every later operand is combined with its predecessors"))
+
+
+def r028(an, rep):
+    """The parser's loop body evaluated over a handful of witness code-unit sequences (finite domain: one per prefix count 0..3 plus a
+    following plain instruction): the yielded tuple holds, at one position each, the operand CPython's disassembler assembles
+    (prefix bytes big-endian above the instruction's own byte), the first-unit offset and the following offset."""
+    from sa.feval import BlockEval, BlockOutcome, FevalError
+    rep.rule("R02.8", "operand / offsets the parser yields on witness code-unit sequences equal what dis._unpack_opargs assembles", 3)
+    pf = find_parser(an)
+    loop = next((n for n in pf.node.body if isinstance(n, ast.For)), None)
+    if loop is None or not isinstance(loop.target, ast.Name):
+        raise AnalysisError(f"{pf.qual}: main loop not found")
+    a = pf.node.args
+    params = [x.arg for x in a.posonlyargs + a.args]
+    if len(params) != 1:
+        raise AnalysisError(f"{pf.qual}: expected one parameter (the bytecode)")
+    EXT, OP = 144, 100
+    outs = []
+
+    class E(BlockEval):
+        def ev(self, node, env):
+            if isinstance(node, ast.Yield):
+                outs.append(self.ev(node.value, env))
+                return None
+            return super().ev(node, env)
+    be = E(lambda name: None, extra={"dis": {"EXTENDED_ARG": EXT, "HAVE_ARGUMENT": 90}, "opcode": {"EXTENDED_ARG": EXT, "HAVE_ARGUMENT": 90}, "EXTENDED_ARG": EXT,
+                                         # platform contract: C int is 4 bytes on every platform CPython 3.7-3.10 supports
+                                         "ctypes": {"sizeof": lambda x: {"c_int": 4}[x], "c_int": lambda *a: "c_int"}})
+    be.module_assigns = pf.module.assigns
+    be.MAX_ITER = 64
+    # (code units, expected (operand, first offset, next offset) per instruction)
+    W = [
+        ([(OP, 7)], [(7, 0, 2)]),
+        ([(EXT, 1), (OP, 2)], [(258, 0, 4)]),
+        ([(EXT, 1), (EXT, 2), (OP, 3)], [(66051, 0, 6)]),
+        ([(EXT, 1), (EXT, 2), (EXT, 3), (OP, 4)], [(16909060, 0, 8)]),
+        ([(OP, 5), (EXT, 1), (OP, 0), (OP, 9)], [(5, 0, 2), (256, 2, 6), (9, 6, 8)]),
+        ([(EXT, 0), (OP, 200), (EXT, 255), (OP, 255)], [(200, 0, 4), (65535, 4, 8)]),
+    ]
+    got = []
+    for units, exp in W:
+        code = bytes(x for u in units for x in u)
+        outs.clear()
+        env = {params[0]: code}
+        try:
+            env, _ = be.run_block([st for st in pf.node.body if st is not loop and pf.node.body.index(st) < pf.node.body.index(loop)], env)
+            seq = be.ev(loop.iter, env)
+            for x in seq:
+                be._bind(loop.target, x, env)
+                be.run_block(loop.body, env)
+        except BlockOutcome as o:
+            rep.add("R02.8", f"{pf.qual}::accepts {units}", False, loc(pf.module, o.node),
+                    f"on the code units {units} (which the compiler emits) the parser stops with `{norm_src(o.node)[:80]}`: from_code raises instead of decoding")
+            return
+        except (FevalError, KeyError, IndexError, TypeError) as e:
+            raise AnalysisError(f"{pf.qual}: loop body not evaluable on witness code units ({e})")
+        if any(not isinstance(t, tuple) for t in outs) or len(outs) != len(exp):
+            rep.add("R02.8", f"{pf.qual}::one tuple per instruction", False, loc(pf.module, loop),
+                    f"on {units} the parser yields {outs!r}: {len(exp)} instruction(s) expected")
+            return
+        got.append((units, exp, list(outs)))
+    width = len(got[0][2][0])
+    for role, k in (("operand", 0), ("offset of the first code unit", 1), ("offset after the instruction", 2)):
+        pos = [p for p in range(width) if all(t[p] == e[k] and not isinstance(t[p], bool) for _u, exp, ts in got for t, e in zip(ts, exp))]
+        bad = None
+        if not pos:
+            # show the witness that separates the closest position
+            best = max(range(width), key=lambda p: sum(t[p] == e[k] for _u, exp, ts in got for t, e in zip(ts, exp)))
+            for u, exp, ts in got:
+                for t, e in zip(ts, exp):
+                    if t[best] != e[k] and bad is None:
+                        bad = (u, e[k], t[best], best)
+        rep.add("R02.8", f"{pf.qual}::{role} on witness code units", bool(pos), loc(pf.module, loop),
+                f"position {pos[0]} of the yielded tuple is the {role} on all {sum(len(x[1]) for x in got)} witness instructions (0-3 prefixes, instruction after a prefixed one)" if pos else
+                f"no position of the yielded tuple is the {role}: on the code units {bad[0]} (opcode {EXT} = EXTENDED_ARG) CPython's disassembler gives {bad[1]}, "
+                f"position {bad[3]} of the tuple holds {bad[2]}")
 
 
 def r027(an, rep):
